@@ -87,6 +87,7 @@ func runC06(w *World, r *Report, tier string) {
 		}
 	}
 	ruleLineIncludes(w, r)
+	ruleThresholdAxis(w, r)
 	ruleWrapper(w, r, wrapperSpec{Wrapper: "shape.GetSpatialIdsOnLine", Extended: "shape.GetExtendedSpatialIdsOnLine", ZoomArg: 2, ExtH: 2, ExtV: 3, IDsArg: -1, PassArgs: [][2]int{{0, 0}, {1, 1}}})
 	guardRows(w, r, "C06")
 }
